@@ -63,7 +63,7 @@ OP = "\x00v:"   # prefix of a name that stays a variable
 
 MUTATORS = {"append", "extend", "update", "pop", "remove", "add", "insert", "sort", "reverse", "clear", "setdefault", "popitem", "discard", "warn",
             "setParseAction", "setResultsName", "__setitem__", "write"}
-IMPURE_FUNCS = {"next", "print", "setattr", "exec", "eval", "input", "open", "delattr"}
+IMPURE_FUNCS = {"next", "print", "setattr", "exec", "eval", "input", "open", "delattr", "\x00import", "\x00importfrom"}
 CONSUMERS = {"tuple", "list", "set", "frozenset", "sum", "any", "all", "sorted", "min", "max", "dict", "OrderedDict", "reduce"}
 NUMERIC_FUNCS = {"exp", "log", "log10", "log2", "sqrt", "float", "int", "sum", "len", "abs", "min", "max", "sin", "cos", "tanh", "atanh", "arctanh", "floor", "round", "Fraction"}
 MAX_EFFECTS = 6000
@@ -119,6 +119,7 @@ class Normaliser:
         self.live_stack: List[Optional[set]] = [set()]   # names read after the block being walked returns to its caller (None: unknown, all)
         self._inval: List[str] = []          # keys dropped from `decided` because something they mention changed
         self.vnum: Dict[str, tuple] = {}     # variables that stay variables are numbered in the order they are first bound
+        fn = _imports_as_bindings(fn)
         fn = inline_procedures(fn, self.helpers, self.methods) if depth == 0 else fn
         fn = webs.split(fn)
         fn = prepass(fn)
@@ -1356,7 +1357,7 @@ class Normaliser:
             if isinstance(s, ast.Pass) or (isinstance(s, ast.Expr) and isinstance(s.value, ast.Constant)):
                 continue
             if isinstance(s, (ast.Import, ast.ImportFrom)):
-                eff.append(("import", ast.dump(s)))
+                eff.append(("import", ast.dump(s)))   # (only `from m import *` is left: the others were turned into bindings)
                 continue
             hdr = _header_exprs(s)
             if hdr and any(isinstance(x, ast.Call) and isinstance(x.func, ast.Attribute) and x.func.attr in MUTATORS for e_ in hdr for x in ast.walk(e_)):
@@ -3370,6 +3371,34 @@ def _fold_literal(n):
 
 
 NO_ARG_EFFECT = {"print", "len", "isinstance", "repr", "str", "int", "float", "bool", "id", "type", "hash", "sorted", "sum", "min", "max", "any", "all", "abs", "round"}
+
+
+def _imports_as_bindings(fn):
+    """an import binds a name to a module / one of its attributes: `import numpy as backend; return backend` is `import numpy; return numpy`.
+    The statement becomes the assignment it is (the value is an opaque, impure call, so it stays where it is and is never dropped)."""
+    if not any(isinstance(x, (ast.Import, ast.ImportFrom)) for x in ast.walk(fn)):
+        return fn
+    import copy
+    fn = copy.deepcopy(fn)
+
+    class T(ast.NodeTransformer):
+        def visit_Import(self, node):
+            out = []
+            for a_ in node.names:
+                nm_ = a_.asname or a_.name.split(".")[0]
+                args_ = [ast.Constant(value=a_.name), ast.Constant(value=bool(a_.asname) or "." not in a_.name)]   # `import a.b` binds a, `import a.b as c` binds a.b
+                out.append(ast.Assign(targets=[ast.Name(id=nm_, ctx=ast.Store())], value=ast.Call(func=ast.Name(id="\x00import", ctx=ast.Load()), args=args_, keywords=[])))
+            return [ast.fix_missing_locations(ast.copy_location(x, node)) for x in out]
+
+        def visit_ImportFrom(self, node):
+            if any(a_.name == "*" for a_ in node.names):
+                return node
+            out = []
+            for a_ in node.names:
+                val_ = ast.Call(func=ast.Name(id="\x00importfrom", ctx=ast.Load()), args=[ast.Constant(value=node.module), ast.Constant(value=node.level), ast.Constant(value=a_.name)], keywords=[])
+                out.append(ast.Assign(targets=[ast.Name(id=a_.asname or a_.name, ctx=ast.Store())], value=val_))
+            return [ast.fix_missing_locations(ast.copy_location(x, node)) for x in out]
+    return T().visit(fn)
 
 
 def _header_exprs(s):
